@@ -14,6 +14,7 @@ import (
 
 var errChunked = errors.New("unbounded redis message")
 var errOldNull = errors.New("RESP2 null")
+var errNegativeLength = errors.New(unexpectedNumByte + "45") // a length below -1, or one that does not fit
 
 const (
 	typeBlobString     = byte('$')
@@ -98,6 +99,9 @@ func readBlobString(i *bufio.Reader) (m RedisMessage, err error) {
 				m.setString(sb.String())
 				return m, nil
 			}
+			if length < 0 {
+				return RedisMessage{}, errNegativeLength
+			}
 			sb.Grow(int(length))
 			if _, err = io.CopyN(&sb, i, length); err != nil {
 				return RedisMessage{}, err
@@ -138,6 +142,9 @@ func readArray(i *bufio.Reader) (m RedisMessage, err error) {
 		if length == -1 {
 			return m, errOldNull
 		}
+		if length < 0 {
+			return m, errNegativeLength
+		}
 		m.array, m.intlen, err = readA(i, length)
 	} else if err == errChunked {
 		m.array, m.intlen, err = readE(i)
@@ -148,6 +155,9 @@ func readArray(i *bufio.Reader) (m RedisMessage, err error) {
 func readMap(i *bufio.Reader) (m RedisMessage, err error) {
 	length, err := readI(i)
 	if err == nil {
+		if length < 0 || length > math.MaxInt64/2 {
+			return m, errNegativeLength
+		}
 		m.array, m.intlen, err = readA(i, length*2)
 	} else if err == errChunked {
 		m.array, m.intlen, err = readE(i)
@@ -193,6 +203,9 @@ func readI(i *bufio.Reader) (v int64, err error) {
 		s = -1
 		bs = bs[1:]
 	}
+	if len(bs) > 21 { // more than 19 digits overflow an int64
+		return 0, errors.New(unexpectedNumByte + strconv.Itoa(int(bs[19])))
+	}
 	for _, c := range bs[:len(bs)-2] {
 		if d := int64(c - '0'); d >= 0 && d <= 9 {
 			v = v*10 + d
@@ -210,6 +223,9 @@ func readB(i *bufio.Reader) (*byte, int64, error) {
 	}
 	if length == -1 {
 		return nil, 0, errOldNull
+	}
+	if length < 0 {
+		return nil, 0, errNegativeLength
 	}
 	bs := make([]byte, length)
 	if _, err = io.ReadFull(i, bs); err != nil {
